@@ -377,7 +377,7 @@ pub enum MsgSpec {
 	PeerAddrs(Vec<AddrSpec>),
 	GetHeaders(u64, u8),
 	Header(u16),
-	/// contiguous run of real headers: start selector, count (never 0: see the zero-headers probe)
+	/// contiguous run of real headers: start selector, count (0 = the empty list a peer with nothing newer sends)
 	Headers(u16, u16),
 	GetBlock(u64),
 	Block(u16),
@@ -421,7 +421,7 @@ fn att_len() -> impl Strategy<Value = u32> {
 }
 
 fn headers_n() -> impl Strategy<Value = u16> {
-	prop_oneof![3 => Just(1u16), 2 => Just(31u16), 3 => Just(32u16), 3 => Just(33u16), 3 => Just(64u16), 1 => Just(65u16), 1 => Just(89u16), 3 => 2u16..=89]
+	prop_oneof![6 => Just(0u16), 3 => Just(1u16), 2 => Just(31u16), 3 => Just(32u16), 3 => Just(33u16), 3 => Just(64u16), 1 => Just(65u16), 1 => Just(89u16), 3 => 2u16..=89]
 }
 
 const REASONS: [ReasonForBan; 8] = [
@@ -451,6 +451,7 @@ fn small_msg() -> impl Strategy<Value = MsgSpec> {
 		2 => any::<u64>().prop_map(MsgSpec::TransactionKernel),
 		3 => (0u8..4, any::<u64>(), any::<u8>(), u64_edges()).prop_map(|(a, b, c, d)| MsgSpec::SegRequest(a, b, c, d)),
 		4 => (29u8..=255, 0u16..40, any::<u64>()).prop_map(|(a, b, c)| MsgSpec::Unknown(a, b, c)),
+		3 => Just(MsgSpec::Headers(0, 0)),
 	]
 }
 
@@ -505,7 +506,7 @@ fn build_msg(spec: &MsgSpec, v: u32, p: &Pool) -> Result<WireMsg, String> {
 		MsgSpec::GetHeaders(seed, n) => wire(Type::GetHeaders, &Locator { hashes: (0..*n).map(|i| hash_from(*seed, i)).collect() }, v),
 		MsgSpec::Header(i) => wire(Type::Header, &p.headers[pick(*i, p.headers.len())], v),
 		MsgSpec::Headers(start, n) => {
-			let n = (*n as usize).clamp(1, p.headers.len());
+			let n = (*n as usize).min(p.headers.len());
 			let s = pick(*start, p.headers.len() - n + 1);
 			wire(Type::Headers, &grin_p2p::msg::Headers { headers: p.headers[s..s + n].to_vec() }, v)
 		}
@@ -910,12 +911,13 @@ fn read_and_compare(codec: &mut Codec, v: u32, sent: &[Sent], total: usize, st: 
 				let r = rd!(i, s.t);
 				let d = match r {
 					Ok(Message::Headers(d)) => d,
-					Err(grin_p2p::Error::BadMessage) if n == 0 => {
+					Err(e) if n == 0 && !is_timeout(&e) => {
 						let (next, _) = codec.read();
 						fail!(
 							"zero-headers-badmessage",
-							"message {}: a Headers message with zero items (body 0000, what a peer with nothing newer answers to GetHeaders) is refused with BadMessage instead of being read as an empty list (the read after the error returned {})",
+							"message {}: a Headers message with zero items (body 0000, what a peer with nothing newer answers to GetHeaders) is refused with {:?} instead of being read as an empty list (the read after the error returned {})",
 							i,
+							e,
 							describe(&next)
 						)
 					}
@@ -1128,6 +1130,8 @@ struct LimitFrame {
 	refused_by_header: bool,
 	/// inconsistent item count: must end in an error, cannot be known from the header
 	count_variant: bool,
+	/// the count field of an inconsistent header list
+	count_field: u16,
 	announced: u64,
 }
 
@@ -1150,14 +1154,14 @@ fn limit_frame(c: &LimitCase, pool: Option<&Pool>) -> Result<LimitFrame, Fail> {
 			let len = c.len.min(max);
 			let mut bytes = frame_header(m, c.t, len);
 			bytes.extend_from_slice(&vec![0u8; len as usize]);
-			Ok(LimitFrame { bytes, refused_by_header: true, count_variant: false, announced: len })
+			Ok(LimitFrame { bytes, refused_by_header: true, count_variant: false, count_field: 0, announced: len })
 		}
 		"len" => {
 			let refused = c.len > 4 * max;
 			let offered = if refused { c.len.saturating_sub(1).min(4096) } else { c.len };
 			let mut bytes = frame_header(magic, c.t, c.len);
 			bytes.extend_from_slice(&vec![0u8; offered as usize]);
-			Ok(LimitFrame { bytes, refused_by_header: refused, count_variant: false, announced: c.len })
+			Ok(LimitFrame { bytes, refused_by_header: refused, count_variant: false, count_field: 0, announced: c.len })
 		}
 		"count-large" | "count-small" | "count-zero" => {
 			let p = pool.ok_or_else(|| Fail::new("harness:pool", "header-count variants need the pool"))?;
@@ -1175,7 +1179,7 @@ fn limit_frame(c: &LimitCase, pool: Option<&Pool>) -> Result<LimitFrame, Fail> {
 			let mut bytes = frame_header(magic, c.t, body.len() as u64);
 			let announced = body.len() as u64;
 			bytes.extend_from_slice(&body);
-			Ok(LimitFrame { bytes, refused_by_header: false, count_variant: true, announced })
+			Ok(LimitFrame { bytes, refused_by_header: false, count_variant: true, count_field: count, announced })
 		}
 		other => Err(Fail::new("harness:replay-parse", format!("unknown variant {}", other))),
 	}
@@ -1303,10 +1307,13 @@ fn check_limit_inner(ctx: &Ctx, c: &LimitCase, counting: bool) -> PResult {
 		ensure!(o.any_err && !o.final_ok, format!("limit-not-refused:{}", c.variant), "{}: a header list whose count disagrees with its length ended with {:?}", what, o.results);
 		ensure!(o.consumed <= f.bytes.len(), "limit-read-past-frame", "{}: {} bytes consumed, the frame has {}", what, o.consumed, f.bytes.len());
 		ensure!(o.tail_ok, "limit-read-past-frame", "{}: the message behind the frame was touched", what);
-		if c.variant == "count-zero" && o.delivered_headers > 0 {
-			fail!(
+		if f.count_field == 0 {
+			// a zero count with a non-empty body is inconsistent on its face: the first
+			// read must be the error and no header of the frame may ever be delivered
+			ensure!(
+				o.delivered_headers == 0 && o.results.len() == 1,
 				"headers-count0-trailing-delivered",
-				"{}: a Headers frame announcing 0 items followed by {} headers had {} headers delivered as successful batches before the error; reads: {:?}",
+				"{}: a Headers frame announcing 0 items followed by {} headers was not refused by the first read ({} headers delivered as successful batches); reads: {:?}",
 				what,
 				c.n,
 				o.delivered_headers,
@@ -1341,6 +1348,13 @@ fn check_limit_inner(ctx: &Ctx, c: &LimitCase, counting: bool) -> PResult {
 		if f.count_variant && o.delivered_headers > 0 {
 			ev.class(&format!("count_variant_batches_delivered_before_error:{}", c.variant));
 		}
+		if f.count_variant {
+			ev.class(&format!(
+				"inconsistent_count_detected_{}:{}",
+				if o.consumed > HDR + 2 { "only_after_reading_body_bytes" } else { "from_the_count_field_alone" },
+				c.variant
+			));
+		}
 		ev.sample(&format!("limits:{}", c.variant), || json!({"case": c, "reads": o.results, "frame_bytes_consumed": o.consumed}));
 	}
 	Ok(())
@@ -1363,7 +1377,7 @@ fn limit_table(mainnet: bool) -> Vec<LimitCase> {
 		}
 	}
 	if !mainnet {
-		for n in [1u16, 2, 31, 32, 33, 64] {
+		for n in [1u16, 2, 31, 32, 33, 64, 89] {
 			for variant in ["count-large", "count-small", "count-zero"] {
 				v.push(LimitCase { mainnet, t: Type::Headers as u8, variant: variant.into(), len: 0, n });
 			}
@@ -1812,7 +1826,7 @@ fn short_seq_strategy() -> impl Strategy<Value = (u8, Vec<MsgSpec>)> {
 	(0u8..4, prop::collection::vec(m, 2..=7))
 }
 
-const RULE: &str = "part frag: proptest generates (protocol version in {1,2,3,1000}, 1-12 messages, 4 fragmentation plans); headers/blocks/compact blocks are real mined objects of the prepared 89-block AutomatedTesting chain, transactions come from the asset library, segment responses are cut from small in-memory PMMRs by Segment::from_pmmr, the rest from typed generators, unknown type bytes 29..255 carry arbitrary bodies, TxHashSetArchive is followed by an attachment of 0..200000 bytes; every (sequence, plan) is one loopback TCP connection: the writer thread writes header‖body‖attachment split at the plan's cut points (whole / one cut / 2-40 random cuts / 1-byte dribble / all item boundaries -1,0,+1 / one cut inside every header and every body) with 0-5 ms pauses, the reader drives Codec::read like conn.rs (expect_attachment after TxHashSetArchive) and every received message is re-encoded and compared with the sent bytes (header batches concatenated, `remaining` and attachment `left` checked, sum of bytes_read = bytes sent); sweeps: every single cut point of short sequences (<= 600 bytes) plus a strided sweep over a long sequence (33 headers + attachment); zero-length header lists are excluded from generated sequences by construction and probed separately (Ping, Headers[], Ping). part limits: for every type byte 0..28 and three unknown ones, on AutomatedTesting and Mainnet limits: wrong magic (other network / one bit flipped) and announced lengths nominal, nominal+1, 4x, 4x+1, 4x+4097, 2^32, 2^63, 2^64-1; header lists whose count field is n+1 / n-1 / 0 for n real headers; the bytes taken from the socket are measured by draining what the codec left; refused frames are re-read in a single-threaded child under the counting allocator. part handshake: real accept/initiate against a scripted peer advertising versions 0,1,2,3,999,1000,1001,2^32-1, two real instances (same / different genesis), one instance dialling itself. evaluations = connections of part frag + limit frames + allocator frames + handshakes. non-trivial = frag connection with >=1 cut strictly inside a message header and >=1 strictly inside a body/attachment whose sequence contains a header list of more than 32 items or a non-empty attachment; distinct by (version, set of message types, number of batches, number of attachment chunks, fragmentation kind)";
+const RULE: &str = "part frag: proptest generates (protocol version in {1,2,3,1000}, 1-12 messages, 4 fragmentation plans); headers/blocks/compact blocks are real mined objects of the prepared 89-block AutomatedTesting chain, transactions come from the asset library, segment responses are cut from small in-memory PMMRs by Segment::from_pmmr, the rest from typed generators, unknown type bytes 29..255 carry arbitrary bodies, TxHashSetArchive is followed by an attachment of 0..200000 bytes; every (sequence, plan) is one loopback TCP connection: the writer thread writes header‖body‖attachment split at the plan's cut points (whole / one cut / 2-40 random cuts / 1-byte dribble / all item boundaries -1,0,+1 / one cut inside every header and every body) with 0-5 ms pauses, the reader drives Codec::read like conn.rs (expect_attachment after TxHashSetArchive) and every received message is re-encoded and compared with the sent bytes (header batches concatenated, `remaining` and attachment `left` checked, sum of bytes_read = bytes sent); sweeps: every single cut point of short sequences (<= 600 bytes) plus a strided sweep over a long sequence (33 headers + attachment); header lists have 0 (the empty list a peer with nothing newer sends, frequent, in every position), 1, 31, 32, 33, 64, 65, 89 or random items; the empty list is additionally sent in directed sequences (alone, first, last, tripled, between batched lists, around attachments) at every version. part limits: for every type byte 0..28 and three unknown ones, on AutomatedTesting and Mainnet limits: wrong magic (other network / one bit flipped) and announced lengths nominal, nominal+1, 4x, 4x+1, 4x+4097, 2^32, 2^63, 2^64-1; header lists whose count field is n+1 / n-1 / 0 for n real headers (a zero count with trailing headers must be refused by the first read with nothing delivered); the bytes taken from the socket are measured by draining what the codec left; refused frames are re-read in a single-threaded child under the counting allocator. part handshake: real accept/initiate against a scripted peer advertising versions 0,1,2,3,999,1000,1001,2^32-1, two real instances (same / different genesis), one instance dialling itself. evaluations = connections of part frag + limit frames + allocator frames + handshakes. non-trivial = frag connection with >=1 cut strictly inside a message header and >=1 strictly inside a body/attachment whose sequence contains a header list of more than 32 items or a non-empty attachment; distinct by (version, set of message types, number of batches, number of attachment chunks, fragmentation kind)";
 
 pub fn run(ctx: &Ctx) -> HResult<()> {
 	init_global();
@@ -1822,23 +1836,38 @@ pub fn run(ctx: &Ctx) -> HResult<()> {
 	let t0 = std::time::Instant::now();
 	let p = pool(ctx).map_err(HarnessError)?;
 	ev.extra("pool_build_s", json!(t0.elapsed().as_secs_f64()));
-	ev.extra("zero_length_header_lists_in_generated_sequences", json!(0));
 	let threads = 8usize;
 
 	if let Err(f) = crosscheck_wire(ctx, p) {
 		return Err(HarnessError(format!("[{}] {}", f.sig, f.msg)));
 	}
 
-	// ---- zero-item header list (candidate defect; kept under its own signature)
+	// ---- directed: the empty header list (sig zero-headers-badmessage if it is refused) alone,
+	// first, last, doubled, next to batched lists and next to attachments, at every version
 	{
-		let v = 1000;
-		let ping = build_msg(&MsgSpec::Ping(3, 4), v, p).map_err(HarnessError)?;
-		let empty = wire(Type::Headers, &grin_p2p::msg::Headers { headers: vec![] }, v).map_err(HarnessError)?;
-		let wc = WireCase { version: v, msgs: vec![ping.clone(), empty, ping], cuts: vec![], delays_us: vec![], kind: "whole".into() };
-		ev.class("zero_headers_probe");
-		if let Err(f) = check_frag(ctx, &wc, true) {
-			settle(ctx, "frag", vec![(serde_json::to_value(&wc).unwrap(), f)])?;
+		let e = || MsgSpec::Headers(0, 0);
+		let seqs: Vec<Vec<MsgSpec>> = vec![
+			vec![MsgSpec::Ping(3, 4), e(), MsgSpec::Ping(3, 4)],
+			vec![e()],
+			vec![e(), MsgSpec::Pong(1, 2)],
+			vec![MsgSpec::Pong(1, 2), e()],
+			vec![e(), e(), e()],
+			vec![MsgSpec::Headers(100, 33), e(), MsgSpec::Headers(9000, 64), e(), MsgSpec::Headers(0, 1)],
+			vec![MsgSpec::TxHashSetArchive(1, 2, 48_001, 3), e(), MsgSpec::TxHashSetArchive(4, 5, 0, 6), e(), MsgSpec::Unknown(99, 17, 7), e()],
+		];
+		let plans = [PlanSpec::Whole, PlanSpec::Dribble, PlanSpec::Edges(-1), PlanSpec::Edges(0), PlanSpec::Edges(1), PlanSpec::HeaderBody(30_000, 50_000)];
+		let mut directed: Vec<WireCase> = vec![];
+		for (vi, _) in VERSIONS.iter().enumerate() {
+			for msgs in &seqs {
+				for plan in &plans {
+					let spec = FragSpec { version: vi as u8, msgs: msgs.clone(), plans: vec![] };
+					directed.push(wire_case(&spec, &FragPlan { plan: plan.clone(), delays: vec![0, 3] }, p, None));
+				}
+			}
 		}
+		ev.class_n("zero_headers_directed_cases", directed.len() as u64);
+		let fails = par_for(&directed, threads, |wc| check_frag(ctx, wc, true));
+		settle(ctx, "frag", fails.into_iter().map(|(i, f)| (serde_json::to_value(&directed[i]).unwrap(), f)).collect())?;
 	}
 
 	// ---- generated sequences x fragmentation plans
@@ -1956,7 +1985,7 @@ pub fn run(ctx: &Ctx) -> HResult<()> {
 	settle(ctx, "handshake", fails.into_iter().map(|(i, f)| (serde_json::to_value(&hs[i]).unwrap(), f)).collect())?;
 
 	ev.extra("code_limit_rule", json!("MsgHeaderWrapper::read refuses msg_len > 4 * max_msg_size(type) (unknown types: 4 * max_block_size): the enforced boundary is 4x the nominal per-type maximum"));
-	for cl in ["nontrivial_sequences", "msg_type:Headers", "msg_type:TxHashSetArchive", "msg_type:Unknown", "msg_type:Block", "frag_kind:dribble"] {
+	for cl in ["nontrivial_sequences", "headers_list_size:0", "msg_type:Headers", "msg_type:TxHashSetArchive", "msg_type:Unknown", "msg_type:Block", "frag_kind:dribble"] {
 		if ev.class_count(cl) == 0 {
 			eprintln!("warning: class {} is empty in this run", cl);
 		}
